@@ -286,7 +286,7 @@ def rest_rules(ctx):
     from . import c13 as _c13
     reuse(ctx, _c13.run, ("C13.flow", "C13.nomut"), "C10rt", "flow round-trip rules shared with C13: the log-proposal values a restored population carries were computed with the flow (and its data transform) that was saved; "
           "a flow that reloads -- or is saved a second time -- without its transform is a different function of the same coordinates")
-    reuse(ctx, c14.run, ("C14.flow",), "C10file", "stale-flow rule shared with C14: after a resume log_q is recomputed with the flow stored in the file")
+    reuse(ctx, lambda c: c14.run(c, shared=False), ("C14.flow",), "C10file", "stale-flow rule shared with C14: after a resume log_q is recomputed with the flow stored in the file")
 
     # ------------------------------------------------------------ who may write x
     bad = []
